@@ -123,11 +123,13 @@ def make_functions(template, log, fail_at=None):
             outs = _outputs_of(_fi, _fs, args)
             return tuple(outs) if len(outs) > 1 else outs[0]
 
-        sig = ", ".join(f"{p}={fs.defaults[p]!r}" if p in fs.defaults else p for p in fs.params)
-        # parameters with defaults must come last in a Python signature
+        # parameters with defaults must come last in a Python signature; default values are passed
+        # through the namespace (they may be symbolic)
         ordered = [p for p in fs.params if p not in fs.defaults] + [p for p in fs.params if p in fs.defaults]
-        sig = ", ".join(f"{p}={fs.defaults[p]!r}" if p in fs.defaults else p for p in ordered)
+        sig = ", ".join(f"{p}=_dflt_{p}" if p in fs.defaults else p for p in ordered)
         ns = {"_body": body}
+        for p_, d_ in fs.defaults.items():
+            ns[f"_dflt_{p_}"] = d_
         exec(f"def {fs.name}({sig}):\n    return _body({', '.join(fs.params)})\n", ns)  # noqa: S102
         on = tuple(fs.outputs) if len(fs.outputs) > 1 else fs.outputs[0]
         funcs.append(PipeFunc(ns[fs.name], on, mapspec=fs.mapspec, internal_shape=fs.internal, bound=dict(fs.bound) or None))
